@@ -719,6 +719,10 @@ async fn run_exec(steps: &[Step], cfg: &XCfg, plan: &BTreeMap<u64, Fault>) -> Ex
     let mut stats: BTreeMap<&'static str, u64> = BTreeMap::new();
     let mut all: Vec<Step> = steps.to_vec();
     all.push(Step::Flush); // closing flush, after the plan has been disarmed
+    let mut comp = {
+        let s = store.tag(0);
+        Compactor::with_time_source(Arc::new(s.clone()), PFX.into(), ManifestManager::new(s, PFX), ccfg(cfg.target, 2, cfg.max_per, 1000), ManualTime(0))
+    };
     for (si, st) in all.iter().enumerate() {
         if si + 1 == all.len() {
             store.disarm();
@@ -766,7 +770,10 @@ async fn run_exec(steps: &[Step], cfg: &XCfg, plan: &BTreeMap<u64, Fault>) -> Ex
         } else {
             site = "Compactor::compact";
             let before = store.objects();
-            match compact_with(&store, ccfg(cfg.target, 2, cfg.max_per, 1000), ManualTime(0)).await {
+            // one Compactor for the whole run, as in the server's compaction worker (whatever it remembers between two
+            // passes - retry queues, cached manifests - is part of what a later flush and a later pass meet)
+            let cres = AssertUnwindSafe(comp.compact()).catch_unwind().await.map_err(|_| "panic in compact()".to_string());
+            match cres {
                 Ok(Ok(r)) => {
                     bump("compact_ok");
                     if let Some(m) = before.get(&format!("{}/manifest.json", PFX)).and_then(|d| serde_json::from_slice::<redis_sim::streaming::Manifest>(d).ok()) {
